@@ -27,7 +27,8 @@ fn str_eq(a: &str, b: &str) -> (r: bool) ensures r == (a@ == b@) { a == b }
 //@  derive PartialEq, Eq, Structural
 //@end
 /// opaque collaborator: the numeral parser (its own behaviour is C15's subject); only `error_state` is read here
-pub struct NumericParser { pub error_state: Error, _p: () }
+#[verifier::external_body] pub struct AbstractRest { _p: () }
+pub struct NumericParser { pub error_state: Error, _rest: AbstractRest }
 impl NumericParser {
     #[verifier::external_body] fn new() -> NumericParser { unimplemented!() }
     #[verifier::external_body] fn clear(&mut self) { unimplemented!() }
